@@ -60,8 +60,15 @@ func (g *zzGraph) task(name string) *zzTask {
 func zzProbeID(task string, k int) string { return task + "." + strconv.Itoa(k) }
 
 // zzMayFail decides symbolically whether probe id fails and with which status.
+// zzFixedCode, when non-zero, is the status every failing probe exits with (used where
+// the status must appear in rendered text).
+var zzFixedCode uint8
+
 func zzMayFail(id string) uint8 {
 	if zz.Bool("fail." + id) {
+		if zzFixedCode != 0 {
+			return zzFixedCode
+		}
 		c := zz.Uint8("code." + id)
 		zz.Assume(c != 0)
 		return c
@@ -126,6 +133,9 @@ func (g *zzGraph) build(failing func(id string) bool) *ast.Taskfile {
 
 var zzGraphCur *zzGraph
 
+// zzSuffix: the rendered text that followed "#" in a probe command (by probe id).
+var zzSuffix = map[string]string{}
+
 // zzProbe is the shell of the symbolic run: a command is a probe that reports its
 // start and finish (with exit status) on the observation trace; a command whose
 // context is already cancelled does not start, one whose context is cancelled
@@ -141,8 +151,12 @@ func zzProbe(ctx context.Context, opts *execext.RunCommandOptions) error {
 		return nil
 	}
 	id := strings.TrimPrefix(opts.Command, "probe ")
+	suffix := ""
 	if k := strings.Index(id, "#"); k >= 0 {
-		id = id[:k] // deferred commands carry "#EXIT=.." after the id
+		id, suffix = id[:k], id[k+1:] // deferred commands carry rendered text after the id
+	}
+	if suffix != "" {
+		zzSuffix[id] = suffix
 	}
 	if err := ctx.Err(); err != nil {
 		return err
@@ -189,9 +203,16 @@ func (s *zzSink) Write(p []byte) (int, error) {
 	}
 	s.mu.Unlock()
 	for _, l := range lines {
-		f := strings.Split(strings.TrimSpace(l), ":")
-		if len(f) < 2 || (f[0] != "S" && f[0] != "F") {
+		// "S:<id>" or "F:<id>:<status>" / "X:<id>:<value>"; ids may contain ':'
+		l = strings.TrimSpace(l)
+		if len(l) < 3 || l[1] != ':' || (l[0] != 'S' && l[0] != 'F' && l[0] != 'X') {
 			continue
+		}
+		f := []string{l[:1], l[2:]}
+		if l[0] != 'S' {
+			if k := strings.LastIndex(l[2:], ":"); k >= 0 {
+				f = []string{l[:1], l[2 : 2+k], l[2+k+1:]}
+			}
 		}
 		key := f[0] + " " + f[1]
 		s.mu.Lock()
